@@ -146,7 +146,7 @@ def parse_template(path):
                 rest = m.group(2)
                 # path ends at first opt token; opts are known keywords
                 toks = split_opts(rest)
-                optkw = ("fragment(", "addgenerics(", "sigsubst(", "bound(", "attr(", "ret(", "mono(", "nogenerics", "nowhere", "keepvis", "keepattrs", "desugar(",
+                optkw = ("subst(", "fragment(", "addgenerics(", "sigsubst(", "bound(", "attr(", "ret(", "mono(", "nogenerics", "nowhere", "keepvis", "keepattrs", "desugar(",
                          "trusted", "rename(", "nobody", "novis")
                 ptoks, otoks = [], []
                 for t in toks:
@@ -293,6 +293,15 @@ def assemble_item(d, info, src, srcfile_label, log):
             raise Undecided(f"{d.path}: desugar(mut_self) but the receiver is not `mut self`")
         recv = ps[0]["span"]
         add(recv[0], recv[1], "mut self_: Self", "DESUGAR_MUT_SELF")
+    for o in d.opts:
+        if o.startswith("subst("):
+            # textual type substitution anywhere in the item (a generic instance replaced by its prelude model)
+            frm, to = [x.strip() for x in o[6:-1].split("=>")]
+            hits = list(re.finditer(re.escape(frm.encode()), src[start:end]))
+            if not hits:
+                raise Undecided(f"{d.path}: subst: `{frm}` not found -- anchor lost")
+            for m_ in hits:
+                add(start + m_.start(), start + m_.end(), to, "MONO")
     # generic parameters that are being substituted are removed from the parameter list
     gp = it.get("gparams")
     gp_removed = []
@@ -471,6 +480,18 @@ def assemble_item(d, info, src, srcfile_label, log):
                         if ve != be:
                             add(ve, be, "", "DESUGAR_BREAK_VALUE")
                         add(be, be, "; break; }", "DESUGAR_BREAK_VALUE")
+            elif o == "desugar(or_guard)":
+                # `A | B if g => body` -> `A if g => body, B if g => body` (Verus: or-pattern with a guard unsupported)
+                if not it.get("or_guards"):
+                    raise Undecided(f"{d.path}: desugar(or_guard) but no such match arm found")
+                for og in it["or_guards"]:
+                    a0, a1 = og["arm"]
+                    if og["comma_end"] > 0:
+                        a1 = og["comma_end"]
+                    g = src[og["guard"][0]:og["guard"][1]].decode()
+                    body = src[og["body"][0]:og["body"][1]].decode()
+                    arms = [src[x:y].decode() + " if " + g + " => " + body + "," for x, y in og["alts"]]
+                    add(a0, a1, "\n".join(arms), "DESUGAR_OR_GUARD")
             elif o == "desugar(wild)":
                 # `_` as a closure or function parameter -> a fresh identifier (Verus rejects `_` parameters)
                 if not it.get("wilds"):
